@@ -7,9 +7,18 @@
 
     submit ts   taskManager.submit (after the pre-processors): decide whether the first task
                 is run inline, `num++` per task, start the goroutines
-    finish t    the deferred function of `executor`: Lock; l.PushBack(t); updateChan; Unlock
+    finish t e  the deferred function of `executor`: Lock; l.PushBack(t); updateChan; Unlock;
+                `e` = the execution ended with `task.err != nil` (a node error, a recovered
+                panic, `InterruptAndRerun`, the interrupt of a nested graph)
     recv        waitOne: `num--; ta := <-t.done`
     refill      waitOne: Lock; updateChan; Unlock
+
+  An execution that ended with an error is handed back by `waitOne` through the early return
+  `if ta.err != nil { return ta, true }`.  For a plain node error the run ends there; for
+  `InterruptAndRerun` and sub-graph interrupts the run loop *goes on collecting*
+  (`tm.waitAll()`, compose/graph_run.go:303-311): the collection of an erroring-but-continuing
+  execution is an ordinary `recv` of a task in `errs`, and whether the re-fill is also on that
+  path is the source fact `refillOnErrorPath`.
 
   The statement order inside these functions, the capacity of `done` and the inline
   condition are *source facts* (`Facts`), regenerated from /repo on every run.
@@ -30,8 +39,12 @@ abbrev Task := Nat
 
 /-- Source facts about compose/graph_manager.go. -/
 structure Facts where
-  /-- `waitOne` runs `Lock; updateChan; Unlock` after `<-t.done` -/
+  /-- `waitOne` runs `Lock; updateChan; Unlock` after `<-t.done` on the path of a task
+      without error (no return in between except under `if ta.err != nil`) -/
   waitOneRefills : Bool
+  /-- the re-fill of `waitOne` also precedes the early return `if ta.err != nil { return }`
+      (no return at all between the receive and the re-fill) -/
+  refillOnErrorPath : Bool
   /-- `make(chan *task, N)` in `initTaskManager` -/
   doneCap : Nat
   /-- `executor`'s deferred function is `Lock; l.PushBack; updateChan; Unlock` in this order
@@ -67,9 +80,11 @@ structure St where
   got : List Task
   /-- ghost: everything handed to `submit` so far -/
   submitted : List Task
+  /-- executions that finished with `task.err != nil` (set at `finish`) -/
+  errs : List Task
   deriving Repr, DecidableEq
 
-def St.init : St := ⟨[], [], [], 0, .idle, [], []⟩
+def St.init : St := ⟨[], [], [], 0, .idle, [], [], []⟩
 
 /-- `updateChan`: move heads of `l` into the channel while there is room. -/
 def updateChan (cap : Nat) (l ch : List Task) : List Task × List Task :=
@@ -78,7 +93,7 @@ def updateChan (cap : Nat) (l ch : List Task) : List Task × List Task :=
 
 inductive Ev where
   | submit (ts : List Task)
-  | finish (t : Task)
+  | finish (t : Task) (err : Bool)
   | recv
   | refill
   deriving Repr, DecidableEq
@@ -106,14 +121,15 @@ def step (F : Facts) (needAll : Bool) (s : St) : Ev → Option St
                     num := s.num + started.length
                     coll := if inl then .inline t else .idle
                     submitted := s.submitted ++ (t :: rest) }
-  | .finish t =>
+  | .finish t err =>
     if s.running.contains t then
       let p := if F.pushUnderLock then updateChan F.doneCap (s.l ++ [t]) s.ch
                else let q := updateChan F.doneCap s.l s.ch; (q.1 ++ [t], q.2)
       some { s with running := s.running.erase t
                     l := p.1
                     ch := p.2
-                    coll := if s.coll = .inline t then .idle else s.coll }
+                    coll := if s.coll = .inline t then .idle else s.coll
+                    errs := if err then t :: s.errs else s.errs }
     else none
   | .recv =>
     if s.coll ≠ .idle then none else
@@ -124,7 +140,9 @@ def step (F : Facts) (needAll : Bool) (s : St) : Ev → Option St
       some { s with num := s.num - 1
                     ch := ch'
                     got := s.got ++ [t]
-                    coll := if F.waitOneRefills then .window else .idle }
+                    -- `if ta.err != nil { return ta, true }`: before or after the re-fill
+                    coll := if F.waitOneRefills && (F.refillOnErrorPath || !s.errs.contains t)
+                            then .window else .idle }
   | .refill =>
     if s.coll = .window then
       let p := updateChan F.doneCap s.l s.ch
@@ -144,7 +162,8 @@ def Reachable (F : Facts) (needAll : Bool) (s : St) : Prop :=
 
 /-- the facts the protocol is correct for -/
 def Facts.Good (F : Facts) : Prop :=
-  F.waitOneRefills = true ∧ F.pushUnderLock = true ∧ F.inlineRemovesFirst = true ∧ 1 ≤ F.doneCap
+  F.waitOneRefills = true ∧ F.pushUnderLock = true ∧ F.inlineRemovesFirst = true ∧ 1 ≤ F.doneCap ∧
+  F.refillOnErrorPath = true
 
 instance (F : Facts) : Decidable F.Good := by unfold Facts.Good; exact inferInstance
 
@@ -271,10 +290,19 @@ def gLoop (g : GCase) : Nat → GState → GState
   | n + 1, st =>
     if endReady g st || (readyNodes g st).isEmpty then st else gLoop g n (gStep g st)
 
-def gRun (g : GCase) : GState :=
-  let st0 : GState :=
-    { cells := resolveWrites [mkTask g startKey g.input], done := [startKey], execs := [] }
-  gLoop g (g.nodes.length + 1) st0
+def gInit (g : GCase) : GState :=
+  { cells := resolveWrites [mkTask g startKey g.input], done := [startKey], execs := [] }
+
+def gRun (g : GCase) : GState := gLoop g (g.nodes.length + 1) (gInit g)
+
+/-- the supersteps of a batch run, in order: the nodes submitted together in each -/
+def gBatchesLoop (g : GCase) : Nat → GState → List (List Key)
+  | 0, _ => []
+  | n + 1, st =>
+    if endReady g st || (readyNodes g st).isEmpty then []
+    else (readyNodes g st).map (·.key) :: gBatchesLoop g n (gStep g st)
+
+def gBatches (g : GCase) : List (List Key) := gBatchesLoop g (g.nodes.length + 1) (gInit g)
 
 /-- the value END receives: one entry per END predecessor -/
 def gResult (g : GCase) : List (Key × String) :=
